@@ -108,5 +108,14 @@ LG_FailFree == (last'.a = "tx" /\ ~last'.ok) => bal' = bal /\ bids' = bids /\ co
 LG_StorKeeps == \A d \in Denoms : bal'["stor"][d] >= bal["stor"][d]
 \* gauge accounts are only drawn from at block boundaries (C12)
 LG_GaugeHold == (last'.a # "block") => \A d \in Denoms : bal'["gauges"][d] >= bal["gauges"][d]
+\* Auth records (x/auth accounts of the users): part of "touches only its own resources" (C11). An account number never
+\* changes once assigned and a sequence number advances only by one, and only for the signer of the transaction
+\* (authp / authq: account -> [num, seq] before and after the step; num = -1: no account yet).
+AuthStable(authp, authq, signer) ==
+  \A a \in DOMAIN authp :
+     /\ a \in DOMAIN authq
+     /\ (authp[a].num >= 0) => (authq[a].num = authp[a].num)
+     /\ \/ authq[a].seq = authp[a].seq
+        \/ (a = signer /\ authq[a].seq = authp[a].seq + 1)
 LG_Step == LG_Supply /\ LG_FailFree /\ LG_StorKeeps /\ LG_GaugeHold
 =============================================================================
